@@ -1,6 +1,7 @@
 (* C13 - Layout, comments, case and line endings never change what is parsed.  Statements only. *)
 From Coq Require Import ZArith NArith List Bool Ascii String Lia.
 Require Import CGT.Model.Date CGT.Model.Dsl CGT.Proofs.DslFacts CGT.Proofs.DslRound CGT.Proofs.DslCase CGT.Proofs.DslLayout.
+Require Import CGT.Generated.Grammar.
 Import ListNotations.
 Open Scope N_scope.
 
@@ -31,6 +32,25 @@ Theorem C13_nothing_skipped : forall valid_cur s ts, parse valid_cur s = inr ts 
   List.length ts = List.length (filter is_tx (map (parse_line valid_cur) (split_lines [] s))) /\
   Forall (fun l => l <> LFail) (map (parse_line valid_cur) (split_lines [] s)).
 Proof. exact parse_nothing_skipped. Qed.
+
+(* The tokens of the reader model are those of the grammar file: coq/Generated/Grammar.v is rewritten from parser.pest on every run
+   (command keywords, clause keywords, the words a currency code may not start with, the
+   blank characters and the line terminators, each set sorted: the order of alternatives is immaterial, no keyword being a prefix of another);
+   a grammar that no longer has these tokens breaks this theorem. *)
+Theorem C13_grammar_tokens :
+  map T g_commands = [KW_ACCUMULATION; KW_BUY; KW_CAPRETURN; KW_DIVIDEND; KW_SELL; KW_SPLIT; KW_UNSPLIT] /\
+  map (fun c => T (snd c)) g_clauses = [AT; KW_TOTAL; KW_FEES; KW_TAX; KW_RATIO] /\
+  map T g_currency_excl = [KW_BUY; KW_FEES; KW_RATIO; KW_SELL; KW_TAX; KW_TOTAL] /\
+  g_whitespace = [[9]; [32]] /\ g_newline = [[10]; [13]; [13; 10]] /\
+  (forall c, is_ws c = true <-> In [code c] [[32]; [9]]) /\ (forall c, is_nl c = true <-> In (code c) [10; 13]).
+Proof.
+  repeat split; try reflexivity; unfold is_ws, is_nl; intros H.
+  - apply orb_true_iff in H. destruct H as [H|H]; apply N.eqb_eq in H; rewrite H; cbn; tauto.
+  - cbn in H. destruct H as [H|[H|[]]]; injection H as <-; reflexivity.
+  - apply orb_true_iff in H. destruct H as [H|H]; apply N.eqb_eq in H; rewrite H; cbn; tauto.
+  - cbn in H. destruct H as [<-|[<-|[]]]; reflexivity.
+Qed.
+Print Assumptions C13_grammar_tokens.
 
 (* Letter case: two texts that differ only in the case of letters (keywords, currency codes, tickers, even comments) are read
    identically - same transactions, or the same offending line and reason.  For every text, of any length. *)
